@@ -415,6 +415,7 @@ class Circuit:
     def finalize(self) -> None:
         """A wrapper for _finalize()."""
         if not self._finalized:
+            self._resolver.resolve()
             self._finalize()
             self._finalized = True
 
